@@ -4,6 +4,8 @@
 //   replay_ice ice wrong   : the same messages WITH a MESSAGE-INTEGRITY computed under a wrong key       -> component must stay silent (control)
 //   replay_ice ice remotekey: well-formed request (0x0001) protected with the REMOTE password -> must stay silent (control for `type`)
 //   replay_ice ice honest   : positive control, two honest agents connect and exchange one datagram each way (exit 0 expected, 3 = they did not)
+//   replay_ice ice latenominate: an HONEST controlling peer (knows both passwords): request without USE-CANDIDATE, answers the triggered check, THEN a request
+//                                with USE-CANDIDATE for the pair that already Succeeded -> the controlled component must report connected exactly once (exit 0; 1 = it did not)
 //   replay_ice ice type    : request with type 0x8001 (top bits set) protected with the REMOTE password  -> processed as a request (key chosen by raw type)
 // exit code 1 = the component reacted to the forged traffic (finding reproduced), 0 = it did not, 2 = driver problem
 #include <QCoreApplication>
@@ -154,8 +156,14 @@ int main(int argc, char **argv)
         key = QByteArray("remote-password-never-told-to-the-attacker");
         respKey = key;
     }
-    // step 1: forged binding request with USE-CANDIDATE
-    attacker.writeDatagram(forge(reqType, QByteArray(12, 'q'), key, true), QHostAddress(QHostAddress::LocalHost), victimPort);
+    const bool late = variant == QLatin1String("latenominate");
+    if (late) {
+        // the honest peer: requests are protected with the victim's LOCAL password, responses with its REMOTE password
+        key = victim.localPassword().toUtf8();
+        respKey = QByteArray("remote-password-never-told-to-the-attacker");
+    }
+    // step 1: binding request (forged variants: with USE-CANDIDATE; latenominate: without)
+    attacker.writeDatagram(forge(reqType, QByteArray(12, 'q'), key, !late), QHostAddress(QHostAddress::LocalHost), victimPort);
     bool gotResponse = false, gotCheck = false;
     QByteArray checkId;
     QElapsedTimer t;
@@ -183,6 +191,16 @@ int main(int argc, char **argv)
     if (gotCheck) {
         attacker.writeDatagram(forge(0x0101, checkId, variant == QLatin1String("none") ? QByteArray() : respKey, false, QHostAddress(QHostAddress::LocalHost), victimPort), QHostAddress(QHostAddress::LocalHost), victimPort);
         pump(500);
+    }
+    if (late) {
+        const bool early = victim.component(1)->isConnected();
+        // step 3: the nominating request arrives AFTER the victim's own check has succeeded
+        attacker.writeDatagram(forge(0x0001, QByteArray(12, 'n'), key, true), QHostAddress(QHostAddress::LocalHost), victimPort);
+        pump(500);
+        const bool now = victim.component(1)->isConnected();
+        printf("[latenominate] check answered: %s; connected before the USE-CANDIDATE request: %s; after it: isConnected() = %s, connected() emitted %d time(s)\n",
+               gotCheck ? "yes" : "NO", early ? "yes" : "no", now ? "TRUE" : "FALSE", connectedSignals);
+        return (gotResponse && gotCheck && !early && now && connectedSignals == 1) ? 0 : 1;
     }
     const bool connected = victim.component(1)->isConnected();
     printf("[%s] after a forged binding success response: component->isConnected() = %s, connected() emitted %d time(s)\n", qPrintable(variant), connected ? "TRUE" : "false", connectedSignals);
